@@ -51,8 +51,11 @@ OTHER = {0: ((0.5, 0.25, 2), (-1.0, 2.0, 3)),     # (start, inc, count) of the t
          2: ((0.5, 0.25, 2), (-1.0, 2.0, 3))}
 
 
-def _axes(axis, n, s, i):
-    o = list(OTHER[axis])
+LINE = ((0.5, 0.25, 1), (-1.0, 2.0, 1))             # a scan line: one point on each of the two concrete axes
+
+
+def _axes(axis, n, s, i, line=False):
+    o = list(LINE if line else OTHER[axis])
     ax = []
     for a in range(3):
         ax.append((s, i, n) if a == axis else o.pop(0))
@@ -61,6 +64,8 @@ def _axes(axis, n, s, i):
 
 def near_job(args):
     tier, n, axis, qt = args
+    line = axis >= 3                   # 3..5: scan line along axis - 3 (counts n,1,1 / 1,n,1 / 1,1,n)
+    axis = axis % 3
     t0 = time.time()
     sh = symx.load()
     M = sh.mininec
@@ -74,7 +79,7 @@ def near_job(args):
         m.power = 1.0
         m.current = np.zeros(len(m.pulses), dtype=complex)
         m.near_field_iter = lambda: iter(())          # per-point field evaluation is not under test
-        ax = _axes(axis, n, s, i)
+        ax = _axes(axis, n, s, i, line)
         npf.state.arange_hook = fp.numpy_arange if mode == 'fp' else None
         try:
             with symx.object_arrays():
@@ -91,7 +96,7 @@ def near_job(args):
     res['aborted'] = paths.aborted
     res['solver_s'] += paths.solver_s
     res['queries'] += paths.queries
-    name = 'near-n%d-axis%s' % (n, 'xyz'[axis])
+    name = 'near-n%d-axis%s%s' % (n, 'xyz'[axis], '-line' if line else '')
     if paths.aborted:
         res['obls'].append((name + '/other-lengths', 'inconclusive',
                             'solver gave unknown while enumerating further feasible lengths'))
@@ -117,7 +122,7 @@ def near_job(args):
                 continue
             mdl = s.model()
             sv, iv = fp.fp_model_value(mdl, o['s']), fp.fp_model_value(mdl, o['i'])
-            rep = replay_near(mm, axis, n, sv, iv)
+            rep = replay_near(mm, axis, n, sv, iv, line)
             if rep is None:
                 res['obls'].append((oname, 'spurious', dict(start=sv, inc=iv, n=n)))
             else:
@@ -145,18 +150,29 @@ def near_job(args):
             res['obls'].append((oname, 'inconclusive', 'wrong table size on the relaxed path (see count obligation)'))
             continue
         goals = []
-        for k in range(total):
+        rows = o['rows']
+        if len(rows) != total or any(len(r_) != 3 for r_ in rows):
+            goals.append(z3.BoolVal(False))
+            rows = None
+        # both what compute_near_field stores and what the report (near_field_iter) walks over
+        for src, k in [(s_, k_) for s_ in ('grid', 'iter') for k_ in range(total)]:
+            if src == 'iter' and rows is None:
+                continue
             idx = (k % counts[0], (k // counts[0]) % counts[1], k // (counts[0] * counts[1]))
             for a in range(3):
                 st, inc, cnt = o['ax'][a]
-                v = coord[a][k]
+                v = coord[a][k] if src == 'grid' else rows[k][a]
                 if a == axis:
                     ref = st.v + idx[a] * inc.v                      # exact real start + k*inc
                     v = fp.SE.lift(v).v
                     tol = (abs(st.v) + abs(idx[a] * inc.v)) * Fraction(1, 10 ** 12)
                     goals.append((abs(v - ref) <= tol).t)
                 else:
-                    if not close(float(v), st + idx[a] * inc, 1e-12):
+                    try:
+                        same = close(float(v), st + idx[a] * inc, 1e-12)
+                    except symx.HarnessError:
+                        same = False                   # a value that depends on the symbolic start/increment sits on a concrete axis
+                    if not same:
                         goals.append(z3.BoolVal(False))
         s = z3.Solver()
         s.set('timeout', qt)
@@ -174,7 +190,7 @@ def near_job(args):
         else:
             mdl = s.model()
             sv, iv = float(core.model_value(mdl, o['s'].v)), float(core.model_value(mdl, o['i'].v))
-            rep = replay_near(mm, axis, n, sv, iv)
+            rep = replay_near(mm, axis, n, sv, iv, line)
             if rep is None:
                 res['obls'].append((on, 'spurious', dict(start=sv, inc=iv, n=n)))
             else:
@@ -184,13 +200,13 @@ def near_job(args):
     return res
 
 
-def replay_near(mm, axis, n, sv, iv):
+def replay_near(mm, axis, n, sv, iv, line=False):
     """Concrete replay on the untouched package: grid of the real compute_near_field."""
     m = catalogue.build(mm, 'G1')
     m.power = 1.0
     m.current = np.zeros(len(m.pulses), dtype=complex)
     m.near_field_iter = lambda: iter(())
-    ax = _axes(axis, n, sv, iv)
+    ax = _axes(axis, n, sv, iv, line)
     m.compute_near_field([a[0] for a in ax], [a[1] for a in ax], [a[2] for a in ax])
     counts = [a[2] for a in ax]
     total = counts[0] * counts[1] * counts[2]
@@ -200,6 +216,9 @@ def replay_near(mm, axis, n, sv, iv):
         return (key, 'near-field grid for start=%r inc=%r count=%d on axis %s has %d points instead of %d'
                 % (sv, iv, n, 'xyz'[axis], co.shape[1], total),
                 dict(kind='near', axis=axis, n=n, start=sv, inc=iv, got=int(co.shape[1]), want=total))
+    rows = [np.asarray(r_, dtype=float) for r_ in mm.Mininec.near_field_iter(m)]
+    if len(rows) != total:
+        return ('C16:near-field-report:points', 'the report walks over %d field points, requested %d' % (len(rows), total), dict(kind='near', axis=axis, n=n, start=sv, inc=iv))
     for k in range(total):
         idx = (k % counts[0], (k // counts[0]) % counts[1], k // (counts[0] * counts[1]))
         for a in range(3):
@@ -208,6 +227,9 @@ def replay_near(mm, axis, n, sv, iv):
                 return ('C16:near-field-grid:values', 'near-field point %d axis %s is %r, expected %r' % (
                     k, 'xyz'[a], co[a][k], want),
                     dict(kind='near', axis=axis, n=n, start=sv, inc=iv))
+            if not close(rows[k][a], want, 1e-9, 1e-12):
+                return ('C16:near-field-report:points', 'field point %d of the report (counts %s) is %s, requested %s on axis %s' % (
+                    k + 1, counts, list(rows[k]), want, 'xyz'[a]), dict(kind='near', axis=axis, n=n, start=sv, inc=iv))
     return None
 
 
@@ -440,11 +462,11 @@ def main(args):
     if tier == 'quick':
         qt = 150000          # only spent when the code really needs floating-point length reasoning
         near = [(tier, n, ax, qt) for n, ax in ((1, 0), (2, 1), (3, 0), (3, 2), (4, 1), (5, 0), (6, 2), (7, 0),
-                                                (8, 1), (9, 2), (10, 0), (11, 1), (12, 2))]
+                                                (8, 1), (9, 2), (10, 0), (11, 1), (12, 2), (3, 3), (3, 4), (3, 5), (1, 3), (2, 4), (21, 3))]
         far = [(tier, 3, 4, qt, 'theta'), (tier, 3, 4, qt, 'phi'), (tier, 1, 1, qt, 'theta'), (tier, 7, 2, qt, 'theta'), (tier, 2, 6, qt, 'phi')]
     else:
         qt = 300000
-        near = [(tier, n, n % 3, qt) for n in list(range(1, 41)) + [50, 64, 73, 100]]
+        near = [(tier, n, n % 3, qt) for n in list(range(1, 41)) + [50, 64, 73, 100]] + [(tier, n, 3 + a, qt) for n in (1, 2, 3, 4, 9, 21) for a in range(3)]
         far = [(tier, a, b, qt, w) for a, b in ((1, 1), (3, 4), (7, 2), (19, 3), (10, 37), (100, 2), (2, 100)) for w in ('theta', 'phi')]
     ck.shadow_stats = symx.load().stats
     with mp.Pool(min(16, os.cpu_count() or 1)) as pool:
